@@ -512,6 +512,13 @@ def _decide(p, q, quats):
         # does not show a differing value; the callers split on the sign cases (and on u = 0) instead
         return UNKNOWN
     if ga == gb:
+        # series atoms are not counted as generators (two table entries are different functions), but a side that carries
+        # a table entry the other side does not mention is being compared with something that entry is a function OF:
+        # no independence argument there
+        sa_ = {x for x in all_atoms(a) if x.kind == "series"}
+        sb_ = {x for x in all_atoms(b) if x.kind == "series"}
+        if sa_ != sb_:
+            return UNKNOWN
         return DIFFERENT
     if _free_trig_ring(a, b, quats) or (not quats and _radical_trig_ring(a, b)):
         return DIFFERENT
